@@ -219,6 +219,8 @@ module Z :
   val of_nat : nat -> z
 
   val of_N : n -> z
+
+  val odd : z -> bool
  end
 
 val upd : nat -> 'a1 -> 'a1 list -> 'a1 list
@@ -753,11 +755,12 @@ val cache_reset : unit mW
 
 val batch_callback : nat -> (nat * z) list -> nat -> unit mW
 
-val w_new_entities : nat -> unit mW
+val w_new_entities : nat -> bool -> unit mW
 
-val w_new_batch : nat -> nat list -> rel list -> (nat * z) list -> unit mW
+val w_new_batch :
+  nat -> nat list -> rel list -> (nat * z) list -> bool -> unit mW
 
-val w_remove_entities : nat -> rel list -> unit mW
+val w_remove_entities : nat -> rel list -> bool -> unit mW
 
 val exchange_table : nat -> nat -> rel list -> (nat * nat) mW
 
@@ -820,7 +823,7 @@ type op =
 | ONewEntity
 | OUNew of nat list
 | OUNewRel of nat list * hrel list
-| ONewEntities of nat
+| ONewEntities of nat * bool
 | OCopy of z
 | OUAdd of z * nat list
 | OUAddRel of z * nat list * hrel list
@@ -829,7 +832,7 @@ type op =
 | OWrite of z * nat * z
 | OUSetRel of z * hrel list
 | ORemoveEntity of z
-| ORemoveEntities of nat * hrel list
+| ORemoveEntities of nat * hrel list * bool
 | OReset
 | OShrink of bool
 | OFilterNew of bool * nat list * nat list * bool * hrel list
@@ -847,7 +850,7 @@ type op =
 | OObsUnregister of nat
 | OEmit of nat * z * nat list
 | OMapSet of z * nat * z
-| ONewBatch of nat * nat list * hrel list * (nat * z) list
+| ONewBatch of nat * nat list * hrel list * (nat * z) list * bool
 | OExchangeBatch of nat * hrel list * nat list * nat list * hrel list
    * (nat * z) list
 | OSetRelBatch of nat * hrel list * nat list * hrel list
@@ -881,6 +884,8 @@ val pnats : nat list p
 val prels : hrel list p
 
 val pvals : (nat * z) list p
+
+val pflag : bool p
 
 val decode_op : z list -> op option
 
